@@ -7,6 +7,7 @@ mod c14;
 mod c15;
 mod c16;
 mod c17;
+mod c18;
 mod c19;
 mod c20;
 
@@ -26,6 +27,7 @@ fn main() {
         "C15" => c15::run(cli),
         "C16" => c16::run(cli),
         "C17" => c17::run(cli),
+        "C18" => c18::run(cli),
         "C19" => c19::run(cli),
         "C20" => c20::run(cli),
         other => common::machinery(&format!("netsim does not serve {other}")),
